@@ -88,6 +88,7 @@ def run(ctx):
         ]
         for name, cost, dk, dparam, kern, kparam in cfgs:
             inp0 = {"cost": name, "n": n, "p": p, "X": X.tolist(), "data_kind": kind}
+            frozen = X.copy()
             try:
                 cost.fit(X)
                 ms = int(cost.min_size)
@@ -137,6 +138,9 @@ def run(ctx):
             if not (bits(again) == bits(vals) and bits(permuted) == bits(vals[perm]) and bits(singles) == bits(vals)):
                 ctx.violation(f"{name}: the row of an interval depends on the batch it is evaluated in / on earlier calls", inp0,
                               {"what": "batch-dependence", "cost": name.split("(")[0]})
+            if not np.array_equal(X, frozen):
+                ctx.violation(f"{name}: fit / evaluate modified the caller's data array in place", inp0, {"what": "caller-data-modified", "cost": name.split("(")[0]})
+                X = frozen.copy()
             # (a) direct definition
             for (s, e), row in zip(cuts, vals):
                 inp = dict(inp0, interval=[s, e], value=row.tolist())
